@@ -7,6 +7,9 @@ env: THEORIES (default: the coq/theories of the tree this script lives in),
      FIN_CLAUSE = full | nf | none : which part of the finalizer clause of WF the generated deliveries respect
        (full: no NotFound and no foreign UID for a finalizer-held object; nf: no NotFound only; none: unrestricted),
      FIN_WF = full (default) | nf | none : which part of the finalizer clause the boolean WF filter checks.
+     MUT_P (default 0.4): probability that a manifest with references spells them as apply-time-mutation
+       substitutions (l_mut: the source lookup of the mutator — resource cache, else a GET — runs before kubectl apply),
+     GCUR_P (default 0.7): probability that kstatus computes Current for an object read by that GET (u_gcur).
    Only runs whose (scenario, cluster) satisfy the boolean WF and kf_freeb are reported."""
 import random, subprocess, sys, os, re
 seed = int(sys.argv[1]) if len(sys.argv) > 1 else 1
@@ -24,6 +27,8 @@ NID = 11
 # DYN_WF = crd: additionally every custom resource of the cluster has its CRD in the cluster
 DYN_WF = os.environ.get("DYN_WF", "wf")
 FIN_P = float(os.environ.get("FIN_P", "0.3"))
+MUT_P = float(os.environ.get("MUT_P", "0.4"))
+GCUR_P = float(os.environ.get("GCUR_P", "0.7"))
 FIN_CLAUSE = os.environ.get("FIN_CLAUSE", "full")
 FIN_WF = os.environ.get("FIN_WF", "full")
 HERE = os.path.dirname(os.path.realpath(__file__))
@@ -34,7 +39,7 @@ def gen():
     # universe: ~FIN_P of the entries are held by a finalizer
     fin = [R.random() < FIN_P for _ in range(NID)]
     focus = R.random() < 0.4     # prune-heavy profile: many tracked objects leave the apply set, no dry-run, few faults
-    univ = "[" + "; ".join("mkUF %s %s %s %s" % (k, ns, crd, b(f)) for (k, ns, crd), f in zip(UKINDS, fin)) + "]"
+    univ = "[" + "; ".join("mkUF %s %s %s %s %s" % (k, ns, crd, b(f), b(R.random() < GCUR_P)) for (k, ns, crd), f in zip(UKINDS, fin)) + "]"
     # cluster
     uid_of = {}
     objs = []
@@ -70,7 +75,8 @@ def gen():
     for i in lids:
         deps = [d for d in range(NID) if d != i and R.random() < (0.2 if d in lids else 0.03)]
         if R.random() < 0.05 and deps: deps.append(deps[0])
-        locs.append("mkL %d %s %s %s %s %d" % (i, nl(deps), b(R.random() < 0.04), b(i == NID - 1 or R.random() < 0.04), b(R.random() < 0.1), R.randint(1, 2)))
+        locs.append("mkLM %d %s %s %s %s %d %s" % (i, nl(deps), b(R.random() < 0.04), b(i == NID - 1 or R.random() < 0.04), b(R.random() < 0.1), R.randint(1, 2),
+                                                   b(bool(deps) and R.random() < MUT_P)))
     dry = "DNone" if focus else R.choice(["DNone"] * 4 + ["DClient", "DServer"])
     ssa = R.random() < (0.5 if any(i in APISVC for i in lids) else 0.2)
     opts = "mkO %s %s %s %s %s %s %s %s %s %s %s" % (
@@ -186,6 +192,18 @@ Definition dstats := Eval vm_compute in
                     existsb (fun it => match it with IEv (EValidation l) => existsb (crd_absent sc c) l | _ => false end) (out_trace (run sc c))) cases),
    length (filter (fun p => let '(c, sc) := p in okb sc c (run sc c) && existsb (crd_absent sc c) (prev_of c)) cases)).
 Print dstats.
+(* apply-time mutation: runs (inside WF, outside the known finding) in which a mutation-spelled manifest with sources got the
+   result Ok / Failed; in the Failed ones, those without any apply request for the object (filter, lookup or read failure) *)
+Definition mut_res (sc : scenario) (out : outcome) (r : ast) (noreq : bool) : bool :=
+  existsb (fun l => l_mut l && negb (match l_deps l with [] => true | _ => false end) &&
+             existsb (fun it => match it with IEv (EApply _ j s) => Nat.eqb (l_id l) j && ast_eqb s r | _ => false end) (out_trace out) &&
+             (negb noreq || negb (existsb (fun x => is_apply_req (fst x) (l_id l)) (reqs (out_trace out)))))
+          (if o_destroy (sc_opts sc) then [] else sc_local sc).
+Definition mstats := Eval vm_compute in
+  (length (filter (fun p => let '(c, sc) := p in let out := run sc c in okb sc c out && mut_res sc out AOk false) cases),
+   length (filter (fun p => let '(c, sc) := p in let out := run sc c in okb sc c out && mut_res sc out AFail true) cases),
+   length (filter (fun p => let '(c, sc) := p in let out := run sc c in okb sc c out && is_dry (o_dry (sc_opts sc)) && mut_res sc out AFail true) cases)).
+Print mstats.
 (* the APIService fallback: an apply PATCH of an APIService died under the server-side option; the apply succeeded / failed *)
 Definition fb_died (sc : scenario) (out : outcome) (i : id) : bool :=
   o_ssa (sc_opts sc) && is_apisvc sc i && faulted sc (FStream i 0)
@@ -225,4 +243,6 @@ m = re.search(r"dstats = \((\d+), (\d+), (\d+), (\d+)\)", flat)
 if m: print("dynamic kinds (WF first runs): CR applied ok with its CRD absent before the run: %s; CR apply failed (CRD absent): %s; validation error naming such a CR: %s; tracked id of unknown kind: %s" % m.groups())
 m = re.search(r"astats = \((\d+), (\d+), (\d+)\)", flat)
 if m: print("APIService fallback (WF first runs): apply PATCH died under the server-side option: %s; of which the apply succeeded: %s; of which the fallback created the object: %s" % m.groups())
+m = re.search(r"mstats = \((\d+), (\d+), (\d+)\)", flat)
+if m: print("apply-time mutation (WF first runs): a mutation-spelled manifest with sources applied ok: %s; failed without any apply request: %s (of which under dry-run: %s)" % m.groups())
 print("done", n)
